@@ -38,6 +38,7 @@ func serve(t *testing.T, input string, h func(rw xmlstream.TokenReadEncoder, sta
 func TestReproNestedCommentSwallowed(t *testing.T) {
 	serve(t, `<message><body>a</body><!-- c --><x xmlns='urn:x'/></message><message id='second'/></stream:stream>`,
 		func(rw xmlstream.TokenReadEncoder, start *xml.StartElement) error {
+			ignored := 0
 			for {
 				tok, err := rw.Token()
 				if err == io.EOF {
@@ -45,6 +46,9 @@ func TestReproNestedCommentSwallowed(t *testing.T) {
 				}
 				if err != nil {
 					t.Logf("  read error ignored: %v", err)
+					if ignored++; ignored > 3 {
+						return nil // with the fix the error is sticky
+					}
 					continue
 				}
 				t.Logf("  token %T %v", tok, tok)
